@@ -144,7 +144,20 @@ def run_wav(case):
   w.writeframes(raw)
   w.close()
   if route == "fileobj":
-    target = io.BytesIO(target.getvalue())
+    data_ = target.getvalue()
+    if (len(samples) + width + channels) % 3 == 0:
+      # the WAV does not start at offset 0 of the file object (another WAV file, of another format,
+      # stored before it): the stream reads from where the object stands, as the wave module does
+      pre = io.BytesIO()
+      w0 = wave.open(pre, "wb")
+      w0.setnchannels(3 - channels); w0.setsampwidth(1 + width % 4); w0.setframerate(rate + 17)
+      w0.writeframes(bytes(range(24)) * (3 - channels))
+      w0.close()
+      prefix = pre.getvalue()
+      target = io.BytesIO(prefix + data_)
+      target.seek(len(prefix))
+    else:
+      target = io.BytesIO(data_)
   elif len(samples) >= 2 * channels:
     # the same path held other contents a moment ago (and was read): nothing may be remembered
     w = wave.open(target, "wb")
